@@ -390,6 +390,17 @@ class XArray(_np.ndarray):
     def __setitem__(self, key, value):
         _np.ndarray.__setitem__(self, key, _exactify(value))
 
+    def _cmp_mask(self, other, op):
+        r = getattr(_np.ndarray, op)(self, other)
+        if isinstance(r, _np.ndarray) and r.dtype == object and all(isinstance(c, (bool, _np.bool_)) for c in r.flat):
+            return _np.asarray(r, dtype=bool)          # usable as a boolean mask, like numpy's own comparisons
+        return r
+
+    def __le__(self, o): return self._cmp_mask(o, "__le__")
+    def __lt__(self, o): return self._cmp_mask(o, "__lt__")
+    def __ge__(self, o): return self._cmp_mask(o, "__ge__")
+    def __gt__(self, o): return self._cmp_mask(o, "__gt__")
+
     def fill(self, value):
         _np.ndarray.fill(self, _exactify(value))
 
@@ -882,6 +893,12 @@ class _Linalg(_types.ModuleType):
             return STATE.alg.norm(a, ord)
         if _symbolic(a):
             a = _to_obj(a)
+            if axis is not None and a.ndim == 2 and (ord is None or ord == 2):
+                rows = a if axis in (1, -1) else a.T
+                out = _np.empty(rows.shape[0], dtype=object)
+                for r in range(rows.shape[0]):
+                    out[r] = self.norm(rows[r])
+                return out.view(XArray)
             if ord is None or ord == 2:
                 tot = STATE.alg.const(Fraction(0))
                 for c in a.flat:
